@@ -469,6 +469,9 @@ class UTPM(Ring, RawAlgorithmsMixIn):
                 self = UTPM(self.data.astype(numpy.result_type(self.data.dtype, r.data.dtype)))
             return UTPM.exp(UTPM.log(self)*r)
         else:
+            if isinstance(r, (list, tuple)):
+                # exponents given as a (nested) list, as NumPy accepts
+                r = numpy.asarray(r)
             x_data = self.data
             if isinstance(r, numpy.ndarray) and r.ndim > 0:
                 # an array of exponents is broadcast against the coefficient
